@@ -128,6 +128,32 @@ Theorem c16_history_wf : forall keep hs t,
 Proof. exact history_wf. Qed.
 Print Assumptions c16_history_wf.
 
+(* Omit(cols...).Save(&v): with an empty Omit list the model function IS Save (so the Save theorems carry
+   over at that point); for non-empty lists the stored columns are tied by the correspondence and
+   C16_Spec.spec_save_omit evaluated on gorm's outputs: PARTIAL *)
+Theorem c16_save_omit_nil : forall t now v, save_omit t now [] v = save t now v.
+Proof. exact save_omit_nil. Qed.
+Print Assumptions c16_save_omit_nil.
+
+Theorem c16_save_omit_wf : forall t now os v, wf t -> wf (res_tbl (save_omit t now os v)).
+Proof. exact save_omit_wf. Qed.
+Print Assumptions c16_save_omit_wf.
+
+(* a second unique index (unique e-mails): an incoming row with a fresh key whose e-mail another row
+   holds leaves the table untouched and is an error under every rule whose conflict target is the key;
+   only DO NOTHING without any target swallows it.  An error never changes the table. *)
+Theorem c16_other_index_collision : forall t now ru tgt v, r_id v <> 0 -> lookup t (r_id v) = None ->
+  email_clash t (r_id v) (r_email v) = true ->
+  let r := create_u t now ru tgt v in
+  res_tbl r = t /\ res_err r = negb (untargeted_nothing ru tgt) /\ res_ra r = 0.
+Proof. exact create_u_clash. Qed.
+Print Assumptions c16_other_index_collision.
+
+Theorem c16_other_index_error_keeps_table : forall t now ru tgt v,
+  res_err (create_u t now ru tgt v) = true -> res_tbl (create_u t now ru tgt v) = t.
+Proof. exact create_u_err. Qed.
+Print Assumptions c16_other_index_error_keeps_table.
+
 (* Save of a slice: the table stays well-formed and every element gets a record handed back.  What
    the elements hold afterwards (values, keys handed back, other rows untouched) is tied by the
    correspondence and by C16_Spec.spec_slice evaluated on gorm's outputs only: PARTIAL. *)
